@@ -95,7 +95,8 @@ def no_float(chk, F):
     if nprim < 15:
         chk.anchor_lost("no-float-fallback", "k4", "only %d float primitives seen (expected the float-preserving arms of Numeric)" % nprim)
     # eval_expr: float sites only in function-call arms
-    fn = F.find(CORE, "runtime::eval::eval_expr")
+    # (normalised: the bodies of the function arms may have been taken out into private helpers - `trig("sin", num, f64::sin)`)
+    fn = F.find(CORE, "runtime::eval::eval_expr", inline=True, keep=("Option::<T>", "Result::<T, E>", "Iterator", "bool>::then"))
     n = 0
     for bb, kind, text in k4.primitives(fn):
         n += 1
